@@ -7,7 +7,7 @@ use crate::svg::{self, Doc, El, Kind};
 pub struct C16;
 
 const IDENTS: [&str; 4] = ["a", "b1", "_x", "Ab_9"];
-const DECLS: [&str; 5] = ["fill:red", "stroke: blue; fill: none", "font: 12px \"Arial\", 'x'; a:#fff", "x:1;\ny:2", "w: calc(1.5 - 2),(3)"];
+const DECLS: [&str; 6] = ["fill:red", "stroke: blue; fill: none", "font: 12px \"Arial\", 'x'; a:#fff", "x:1;\ny:2", "w: calc(1.5 - 2),(3)", ""];
 const DIAGRAMS: [&str; 3] = ["", "+--+\n|  |\n+--+\n", "some text\n"];
 const HEADERS: [&str; 2] = ["# Legend:", "  # Legend:  "];
 
@@ -95,6 +95,8 @@ fn tag_shapes() -> Vec<(&'static str, String)> {
         ("rounded-box", shapes::boxed(&shapes::box_styles()[2].1, 7, 2)),
         ("circle", cat[12].clone()),
         ("box-in-box", "+-------------+\n|             |\n| +-------+   |\n| |       |   |\n| +-------+   |\n|             |\n+-------------+".to_string()),
+        ("two-boxes-in-box", "+-----------------+\n|                 |\n| +-----+ +-----+ |\n| |     | |     | |\n| +-----+ +-----+ |\n|                 |\n+-----------------+".to_string()),
+        ("box-with-text-in-box", "+--------------+\n| note         |\n| +-----+      |\n| |     |      |\n| +-----+      |\n+--------------+".to_string()),
         ("box-in-circle", {
             // the largest catalogue circle with a small box inside
             let mut cv = shapes::Canvas::new();
@@ -253,9 +255,9 @@ impl Prop for C16 {
         "C16"
     }
     fn rule(&self) -> &'static str {
-        "legend: header in {'# Legend:', '  # Legend:  '} x all sequences of up to 2 (thorough 3) entries from 20 (4 identifiers x 5 declaration strings with spaces, ;:#-.,() quotes and a newline) \
+        "legend: header in {'# Legend:', '  # Legend:  '} x all sequences of up to 2 (thorough 3) entries from 24 (4 identifiers x 6 declaration strings with spaces, ;:#-.,() quotes, a newline, and the empty declaration) \
          plus chains of 4, 5, 6 entries, all starting at column 0 (the grammar, like the statement, only accepts entries that start a line) x {LF, CRLF} x 0..2 trailing blank lines x {no diagram, a box, text} above: the style element is the built-in sheet followed in order by '.svgbob .name{ decls }' rules, \
-         and canvas and elements equal the diagram alone. tags: 5 shapes (sharp box, rounded box, circle, box in box, box in circle) x 5 tags x every position of the page grid where the tag fits on blanks \
+         and canvas and elements equal the diagram alone. tags: 7 shapes (sharp box, rounded box, circle, box in box, two sibling boxes in a box, a box below a line of text in a box, box in circle) x 5 tags x every position of the page grid where the tag fits on blanks \
          x {alone, with a word beside it}: inside a shape's bounding box the innermost rect/circle gains exactly the names and nothing else changes and the tag is gone; outside every bounding box it stays text. \
          distinct_nontrivial = distinct (rule count, diagram) and (inside/outside, shape, tag) outcomes that passed"
     }
@@ -279,7 +281,7 @@ impl Prop for C16 {
                                 for _ in 0..maxseq {
                                     let mut next = vec![];
                                     for s in &layer {
-                                        for e in 0..20i64 {
+                                        for e in 0..24i64 {
                                             let mut t = s.clone();
                                             t.push(e);
                                             next.push(t);
@@ -292,7 +294,7 @@ impl Prop for C16 {
                                     }
                                 }
                                 for chain in [4, 5, 6] {
-                                    seqs.push((0..chain).map(|i| ((i * 7 + 3) % 20) as i64).collect());
+                                    seqs.push((0..chain).map(|i| ((i * 7 + 3) % 24) as i64).collect());
                                 }
                                 for s in seqs {
                                     let mut n = vec![dg, hd, lead, tr];
